@@ -84,6 +84,29 @@ func (b *BackendConn) Abort() { b.conn.Close() }
 // Closed reports whether the backend observed the end of the connection.
 func (b *BackendConn) Closed() <-chan struct{} { return b.closeCh }
 
+var (
+	dialMu   sync.Mutex
+	dials    []string
+	allowed  = map[string]bool{}
+	hookOnce sync.Once
+)
+
+func installDialRecorder() {
+	hookOnce.Do(func() {
+		websocket.DefaultDialer.NetDialContext = func(ctx context.Context, network, addr string) (net.Conn, error) {
+			dialMu.Lock()
+			dials = append(dials, addr)
+			ok := allowed[addr]
+			dialMu.Unlock()
+			if !ok {
+				return nil, fmt.Errorf("harness: refusing to dial %s", addr)
+			}
+			var d net.Dialer
+			return d.DialContext(ctx, network, addr)
+		}
+	})
+}
+
 type Rig struct {
 	Handler  http.Handler
 	Server   *httptest.Server
@@ -96,8 +119,6 @@ type Rig struct {
 	arrived  chan *BackendConn
 	upgrader websocket.Upgrader
 	cancel   context.CancelFunc
-	// Dials records every address handed to the network dialer by the code under test.
-	Dials []string
 }
 
 type Options struct {
@@ -116,6 +137,21 @@ func New(o Options) *Rig {
 	r := &Rig{conns: map[string]*BackendConn{}, arrived: make(chan *BackendConn, 1024), ShimPath: "/" + strings.Trim(o.ShimPath, "/")}
 	r.upgrader.CheckOrigin = func(*http.Request) bool { return true }
 	r.Server = httptest.NewServer(http.HandlerFunc(func(w http.ResponseWriter, rq *http.Request) {
+		switch {
+		case strings.HasPrefix(rq.URL.Path, "/redir-host/"):
+			// as many frameworks do: an absolute redirect built from the request's Host header
+			w.Header().Set("Location", "http://"+rq.Host+"/ws/after-redirect")
+			w.WriteHeader(301)
+			return
+		case strings.HasPrefix(rq.URL.Path, "/redir-evil/"):
+			w.Header().Set("Location", "ws://evil.example:8080/ws/after-redirect")
+			w.WriteHeader(307)
+			return
+		case strings.HasPrefix(rq.URL.Path, "/redir-rel/"):
+			w.Header().Set("Location", "/ws/after-redirect")
+			w.WriteHeader(302)
+			return
+		}
 		if !websocket.IsWebSocketUpgrade(rq) {
 			w.WriteHeader(200)
 			w.Write([]byte("plain"))
@@ -164,23 +200,16 @@ func New(o Options) *Rig {
 	}
 	r.Handler = h
 	if o.RecordDials {
-		websocket.DefaultDialer.NetDialContext = func(ctx context.Context, network, addr string) (net.Conn, error) {
-			r.mu.Lock()
-			r.Dials = append(r.Dials, addr)
-			r.mu.Unlock()
-			if addr != r.Host {
-				return nil, fmt.Errorf("harness: refusing to dial %s", addr)
-			}
-			var d net.Dialer
-			return d.DialContext(ctx, network, addr)
-		}
+		dialMu.Lock()
+		allowed[r.Host] = true
+		dialMu.Unlock()
+		installDialRecorder()
 	}
 	return r
 }
 
 func (r *Rig) Close() {
 	r.cancel()
-	websocket.DefaultDialer.NetDialContext = nil
 	r.Server.CloseClientConnections()
 	r.Server.Close()
 }
@@ -199,12 +228,12 @@ func (r *Rig) ForgetConns() {
 	r.conns = map[string]*BackendConn{}
 }
 
-// TakeDials returns and clears the recorded dial addresses.
+// TakeDials returns and clears the addresses handed to the network dialer (by any rig of this process).
 func (r *Rig) TakeDials() []string {
-	r.mu.Lock()
-	defer r.mu.Unlock()
-	d := r.Dials
-	r.Dials = nil
+	dialMu.Lock()
+	defer dialMu.Unlock()
+	d := dials
+	dials = nil
 	return d
 }
 
@@ -218,6 +247,11 @@ type Result struct {
 
 // Call invokes the handler in-process; a panic is recorded, a call that does not return in time is reported.
 func (r *Rig) Call(method, path string, body []byte, hdr http.Header, timeout time.Duration) Result {
+	return r.CallHost("", method, path, body, hdr, timeout)
+}
+
+// CallHost is Call with a chosen Host of the client request.
+func (r *Rig) CallHost(host, method, path string, body []byte, hdr http.Header, timeout time.Duration) Result {
 	done := make(chan Result, 1)
 	go func() {
 		var res Result
@@ -228,6 +262,9 @@ func (r *Rig) Call(method, path string, body []byte, hdr http.Header, timeout ti
 			done <- res
 		}()
 		req := httptest.NewRequest(method, "http://client.example"+path, bytes.NewReader(body))
+		if host != "" {
+			req.Host = host
+		}
 		for k, v := range hdr {
 			req.Header[k] = v
 		}
